@@ -454,72 +454,75 @@ func c11Run(c *hx.Ctx, tier, unit string) {
 		// the buffer the operation must fail, not issue a second write with the rest
 		for _, api := range []string{"EFIFS.WriteVar", "FSWrapper.WriteEfivarsWithGuid", "attributes.WriteEfivarsWithGuid"} {
 			for _, at := range []uint32{0x07, 0x27, 0x67} {
-				for _, v := range c11Values()[1:] {
-					if len(v.enc) == 0 || !c.Next() {
-						continue
-					}
-					rec := recfs.New()
-					rec.Fault = func(k int, op string) string {
-						if op == "f.Write" {
-							for _, e := range rec.Events {
-								if e.Op == "f.Write" && len(e.Data) > 0 && &e != nil {
-									return "" // only the first write is cut short
+				for _, fk := range []string{"short", "eagain", "eintr", "enospc", "err"} {
+					for _, v := range c11Values()[1:] {
+						if len(v.enc) == 0 || !c.Next() {
+							continue
+						}
+						fk := fk
+						rec := recfs.New()
+						rec.Fault = func(k int, op string) string {
+							if op == "f.Write" {
+								for _, e := range rec.Events {
+									if e.Op == "f.Write" && len(e.Data) > 0 && &e != nil {
+										return "" // only the first write fails (short count, or an errno the OS calls temporary, ...)
+									}
 								}
+								return fk
 							}
-							return "short"
+							return ""
 						}
-						return ""
-					}
-					g := unwire(ownerA)
-					var err error
-					pn := hx.Try(func() {
-						switch api {
-						case "EFIFS.WriteVar":
-							fw := fswrapper.NewMemoryWrapper()
-							fw.SetFS(rec)
-							err = (&efivarfs.EFIFS{FSWrapper: fw}).WriteVar(efivar.Efivar{Name: "V", GUID: &g, Attributes: attributes.Attributes(at)}, v.m)
-						case "FSWrapper.WriteEfivarsWithGuid":
-							fw := fswrapper.NewMemoryWrapper()
-							fw.SetFS(rec)
-							err = fw.WriteEfivarsWithGuid("V", attributes.Attributes(at), v.enc, g)
+						g := unwire(ownerA)
+						var err error
+						pn := hx.Try(func() {
+							switch api {
+							case "EFIFS.WriteVar":
+								fw := fswrapper.NewMemoryWrapper()
+								fw.SetFS(rec)
+								err = (&efivarfs.EFIFS{FSWrapper: fw}).WriteVar(efivar.Efivar{Name: "V", GUID: &g, Attributes: attributes.Attributes(at)}, v.m)
+							case "FSWrapper.WriteEfivarsWithGuid":
+								fw := fswrapper.NewMemoryWrapper()
+								fw.SetFS(rec)
+								err = fw.WriteEfivarsWithGuid("V", attributes.Attributes(at), v.enc, g)
+							default:
+								efifs.SetFS(rec)
+								err = attributes.WriteEfivarsWithGuid("V", attributes.Attributes(at), v.enc, g)
+							}
+						})
+						writes := 0
+						other := ""
+						var tr []string
+						for _, e := range rec.Events {
+							tr = append(tr, e.String())
+							switch e.Op {
+							case "f.Write":
+								writes++
+							case "OpenFile", "Stat", "Open", "f.Close", "f.Sync", "f.Stat", "f.Read", "f.ReadAt", "f.Seek":
+							default:
+								other = e.Op
+							}
+						}
+						d := map[string]any{"api": api, "attrs": at, "value": v.name, "trace": tr, "error": fmt.Sprint(err), "first_write_fails_with": fk}
+						switch {
+						case pn != nil:
+							c.Violation("C11 short write via "+api+": ends in "+pn.String(), d)
+						case other != "":
+							c.Outcome("violation")
+							c.Violation("C11 short write via "+api+": the failed write touches something else: "+other, d)
+						case writes != 1:
+							c.Outcome("violation")
+							c.Violation(fmt.Sprintf("C11 short write via %s: %d write operations instead of exactly one (a partial write is retried)", api, writes), d)
+						case err == nil:
+							c.Outcome("violation")
+							c.Violation("C11 short write via "+api+": success reported", d)
 						default:
-							efifs.SetFS(rec)
-							err = attributes.WriteEfivarsWithGuid("V", attributes.Attributes(at), v.enc, g)
+							c.Outcome("short-write-ok")
+							c.Nontrivial([]byte(api), []byte{byte(at)}, []byte(v.name))
 						}
-					})
-					writes := 0
-					other := ""
-					var tr []string
-					for _, e := range rec.Events {
-						tr = append(tr, e.String())
-						switch e.Op {
-						case "f.Write":
-							writes++
-						case "OpenFile", "Stat", "Open", "f.Close", "f.Sync", "f.Stat", "f.Read", "f.ReadAt", "f.Seek":
-						default:
-							other = e.Op
+						// a later write through the SAME wrapper object must not be affected by the failed one
+						if api == "FSWrapper.WriteEfivarsWithGuid" && pn == nil {
+							c11AfterFailure(c, at, v.enc)
 						}
-					}
-					d := map[string]any{"api": api, "attrs": at, "value": v.name, "trace": tr, "error": fmt.Sprint(err)}
-					switch {
-					case pn != nil:
-						c.Violation("C11 short write via "+api+": ends in "+pn.String(), d)
-					case other != "":
-						c.Outcome("violation")
-						c.Violation("C11 short write via "+api+": the failed write touches something else: "+other, d)
-					case writes != 1:
-						c.Outcome("violation")
-						c.Violation(fmt.Sprintf("C11 short write via %s: %d write operations instead of exactly one (a partial write is retried)", api, writes), d)
-					case err == nil:
-						c.Outcome("violation")
-						c.Violation("C11 short write via "+api+": success reported", d)
-					default:
-						c.Outcome("short-write-ok")
-						c.Nontrivial([]byte(api), []byte{byte(at)}, []byte(v.name))
-					}
-					// a later write through the SAME wrapper object must not be affected by the failed one
-					if api == "FSWrapper.WriteEfivarsWithGuid" && pn == nil {
-						c11AfterFailure(c, at, v.enc)
 					}
 				}
 			}
